@@ -298,6 +298,22 @@ def _is_digest_text(ex, st, t, f, data):
     return VBool(z3.If(fe == z3.StringVal("c4"), c4case, hexcase))
 
 
+# opaque name for is_digest_text: invariants that merely carry "these texts are the right digests" around use the
+# uninterpreted predicate; L_digest_ok reveals the definition where it is established or needed
+digest_ok = z3.Function("digest_ok", S, S, S, B)
+
+
+@SPEC.fn("digest_ok")
+def _digest_ok(ex, st, t, f, data):
+    return VBool(digest_ok(_s(t), _s(f), _s(data)))
+
+
+@SPEC.fn("L_digest_ok")
+def _L_digest_ok(ex, st, t, f, data):
+    """definition of the opaque predicate: digest_ok(t, f, data) == is_digest_text(t, f, data)"""
+    return VBool(digest_ok(_s(t), _s(f), _s(data)) == _is_digest_text(ex, st, t, f, data).e)
+
+
 @SPEC.fn("fmt_of")
 def _fmt_of(ex, st, h):
     """format name of a Hasher instance (via its dynamic class)"""
@@ -676,6 +692,11 @@ def _append(ex, st, l, x):
     st.assume(z3.Length(r) == n + 1)
     st.assume(r[n] == xe)
     st.assume(z3.ForAll([j], z3.Implies(z3.And(0 <= j, j < n), r[j] == l.e[j])))
+    # membership facts the sequence solver is slow to derive from the Concat term
+    x = z3.Const(fresh_name("x"), xe.sort())
+    st.assume(z3.Contains(r, z3.Unit(xe)))
+    st.assume(z3.ForAll([x], z3.Implies(z3.Contains(l.e, z3.Unit(x)), z3.Contains(r, z3.Unit(x)))))
+    st.assume(z3.ForAll([x], z3.Implies(z3.Contains(r, z3.Unit(x)), z3.Or(x == xe, z3.Contains(l.e, z3.Unit(x))))))
     return VList(l.elem_ty, r)
 
 
